@@ -59,7 +59,10 @@ func c17CacheOnSuccess(r *core.Report) {
 		return
 	}
 	n := 0
-	for _, fn := range f.AllWithLits() {
+	for _, fn := range pkgScope(p, f, 2) {
+		if k := fn.Root().Key; k == "range-cache.(*RangeCache).setRange" || k == "range-cache.(*RangeCache).SetRange" || k == "range-cache.(*RangeCache).getRangeFromCache" || k == "range-cache.(*RangeCache).getRange" {
+			continue
+		}
 		info := fn.Pkg.TypesInfo
 		g := p.Graph(fn)
 		// the fetch call: a call of the remoteFetcher field; its error variable
@@ -135,7 +138,10 @@ func c17NoAliasing(r *core.Report) {
 	}
 	// (b) GetRange miss closure: what is stored is not the slice returned to the caller
 	if f := r.Anchor(rule, "range-cache.(*RangeCache).GetRange"); f != nil {
-		for _, fn := range f.AllWithLits() {
+		for _, fn := range pkgScope(p, f, 2) {
+			if k := fn.Root().Key; k == "range-cache.(*RangeCache).setRange" || k == "range-cache.(*RangeCache).SetRange" {
+				continue
+			}
 			info := fn.Pkg.TypesInfo
 			for _, c := range core.CallsIn(fn.Body, false) {
 				nm := core.CalleeName(info, c)
@@ -144,7 +150,7 @@ func c17NoAliasing(r *core.Report) {
 				}
 				stored := core.ObjOf(info, c.Args[3])
 				// the stored variable must be defined as a copy, and must not be what the closure returns
-				okDef := false
+				okDef := isCopyExpr(info, c.Args[3]) // the copy is made in the call itself: setRange(..., clone(buf))
 				ast.Inspect(fn.Body, func(m ast.Node) bool {
 					if as, ok := m.(*ast.AssignStmt); ok && len(as.Lhs) == 1 && len(as.Rhs) == 1 && core.ObjOf(info, as.Lhs[0]) == stored && isCopyExpr(info, as.Rhs[0]) {
 						okDef = true
@@ -249,7 +255,7 @@ func c17Refusal(r *core.Report) {
 		ast.Inspect(f.Body, func(m ast.Node) bool {
 			if as, ok := m.(*ast.AssignStmt); ok && len(as.Lhs) == len(as.Rhs) {
 				for i, rhs := range as.Rhs {
-					if cl, ok := core.Unparen(rhs).(*ast.CompositeLit); ok && strings.HasSuffix(core.NamedTypeName(info.TypeOf(cl)), ".Range") && len(cl.Elts) == 2 && ends[core.ObjOf(info, cl.Elts[1])] {
+					if cl, ok := core.Unparen(rhs).(*ast.CompositeLit); ok && strings.HasSuffix(core.NamedTypeName(info.TypeOf(cl)), ".Range") && len(cl.Elts) == 2 {
 						if o := core.ObjOf(info, as.Lhs[i]); o != nil {
 							ranges[o] = true
 						}
@@ -543,16 +549,46 @@ func c17EntryLengthInvariant(r *core.Report) {
 					valExpr = kv.Value
 				}
 			}
+			// the key: Range{a, b} written in place, or a local that holds such a value (wanted := Range{a, b})
 			kl, ok := core.Unparen(ix.Index).(*ast.CompositeLit)
+			var keyObj types.Object
+			if !ok {
+				if ko := core.ObjOf(info, ix.Index); ko != nil {
+					if d := singleDef(f, ko); d != nil {
+						if dl, isLit := core.Unparen(d).(*ast.CompositeLit); isLit {
+							kl, ok, keyObj = dl, true, ko
+						}
+					}
+				}
+			}
 			if valExpr == nil || !ok || len(kl.Elts) != 2 {
 				continue
 			}
 			n++
 			k := fmt.Sprintf("%s#cache-store@%d-value-length=range-length", f.Key, n)
 			vo, ao, bo := core.ObjOf(info, valExpr), core.ObjOf(info, kl.Elts[0]), core.ObjOf(info, kl.Elts[1])
-			if vo == nil || ao == nil || bo == nil {
+			if vo == nil || ((ao == nil || bo == nil) && keyObj == nil) {
 				r.Undecided(rule, k, pos(r, as), "value or key bounds of the store are not plain variables")
 				continue
+			}
+			// the comparison is on both bounds: on the variables the key was built from, or on K[0] and K[1] of the key local
+			mentionsBounds := func(e ast.Expr) bool {
+				if ao != nil && bo != nil && core.Mentions(info, e, ao) && core.Mentions(info, e, bo) {
+					return true
+				}
+				if keyObj == nil {
+					return false
+				}
+				has := map[int64]bool{}
+				ast.Inspect(e, func(m ast.Node) bool {
+					if kx, isIx := m.(*ast.IndexExpr); isIx && core.ObjOf(info, kx.X) == keyObj {
+						if v, isC := core.ConstInt(info, kx.Index); isC {
+							has[v] = true
+						}
+					}
+					return true
+				})
+				return has[0] && has[1]
 			}
 			okLen, stale := false, false
 			for _, fc := range g.FactsAt(node) {
@@ -560,7 +596,7 @@ func c17EntryLengthInvariant(r *core.Report) {
 				if !ok || fc.Tag != nil || !((be.Op == token.NEQ && !fc.Truth) || (be.Op == token.EQL && fc.Truth)) {
 					continue
 				}
-				if core.Mentions(info, be, vo) && core.Mentions(info, be, ao) && core.Mentions(info, be, bo) && strings.Contains(core.ExprStr(be), "len(") {
+				if core.Mentions(info, be, vo) && mentionsBounds(be) && strings.Contains(core.ExprStr(be), "len(") {
 					if g.FactFresh(fc, node) {
 						okLen = true
 					} else {
